@@ -7,6 +7,9 @@ E1_NOTE = ("Trusted base: plonky2's Poseidon2 permutation (shared by the referen
            "(cross-checked every run against the real prover+verifier on positive controls and on a sample of gate-level Unsat verdicts). "
            "A search: absence of a satisfying witness among the explored assignments is evidence, not proof, of unsatisfiability.")
 
+E2_NOTE = ("Trusted base: the reference predicate/decoder written in the harness from the property statement; plonky2's Poseidon2 where hashes are compared. "
+           "Generated-input search: agreement on the explored inputs is evidence, not proof, for all inputs.")
+
 CHECKS = {
  # id: (engine, category, text, design_ref, level_note, technique)
  "C01": ("E1-leaf", "exploration",
@@ -53,6 +56,19 @@ CHECKS = {
  "C36": ("E1-wrapper", "exploration",
          "Chains: compatible real leaf statements split into M inner batches of capacity N, each through the private wrapper circuit, outputs fed verbatim into the public wrapper circuit; conservation of value per account and exact nullifier multiset computed from the leaf statements only; padding inners contribute zeros.",
          "DESIGN.md §4 C36", E1_NOTE, "end-to-end invariant checking on generated inputs (two chained circuit evaluations)"),
+
+ "C24": ("E2-native", "exploration",
+         "Reference writer + reference well-formedness predicate/decoder for the leaf (21), private-batch (8+21N, every N in 1..64) and public-batch (12+14MN) layouts; every parser entry point (u64, field-element, verifier::parse_*) compared on valid structures, single-field corruptions at first/last/middle positions, boundary lengths, arbitrary vectors and out-of-range declared counts: no panic, Ok <=> predicate, Ok(v) == reference decode, u64 and felt private-batch parsers agree.",
+         "DESIGN.md §4 C24", E2_NOTE, "differential testing against a reference predicate/decoder on generated and mutated inputs"),
+ "C25": ("E2-native", "exploration",
+         "Round trip, pairwise injectivity on near-colliding clusters, the 1 MiB cap at 2^20+-1, decode-accepts-only-images on corrupted felt vectors, digest acceptance <=> all limbs < p at BytesDigest/Secret entry points, limb decoding <=> limbs < 2^32, quantisation boundary, each against a reference written from the statement.",
+         "DESIGN.md §4 C25", E2_NOTE, "round-trip / injectivity / reference-predicate testing on generated inputs"),
+ "C26": ("E2-native", "exploration",
+         "hash_bytes_compact (through a cfg-gated re-export) Ok <=> len<=2^20, 8|len, limbs<p on every length 0..264 and at the cap; near-miss pairs (x vs x||0^8, v vs v+p, swapped limbs, one bit) must have distinct field sequences and digests; hash_node / hash_node_presorted Err-not-panic <=> non-canonical child, order independence over all 24 permutations, presorted equality.",
+         "DESIGN.md §4 C26", E2_NOTE, "reference-predicate and metamorphic testing on generated inputs"),
+ "C27": ("E2-native", "exploration",
+         "verify()/verify_with_positions() vs a reference predicate with its own fold (plonky2 Poseidon2 over the position-inserted 16 limbs) on reference-built valid paths of every depth 0..18 and single corruptions; from_unsorted accept/shape/rank/verify checks; and the circuit clause: the real leaf circuit (E1) is satisfiable for a real statement's tree path iff native verify() accepts it.",
+         "DESIGN.md §4 C27", E2_NOTE + " Circuit clause shares E1's trusted base.", "differential testing: native verifier vs reference fold vs circuit evaluation"),
 }
 
 NOT_YET = "not claimed yet: check not implemented in this round (design in DESIGN.md §4); will be claimed once its check is built and validated"
@@ -102,6 +118,9 @@ def main():
             {"name": "E1-gadget", "path": "harness/src/props/gadgetprops.rs",
              "serves_properties": [p for p in ["C30", "C31", "C10"] if p in CHECKS],
              "kind_free_text": "single-gadget circuits for common::gadgets evaluated through E1"},
+            {"name": "E2-native", "path": "harness/src/props/parsers.rs, harness/src/props/encodings.rs, harness/src/props/config.rs",
+             "serves_properties": [p for p in ["C24", "C25", "C26", "C27", "C28", "C29", "C35"] if p in CHECKS],
+             "kind_free_text": "native API properties: deterministic generators (VERIF_SEED) + reference predicates/decoders, catch_unwind around every call, element-wise shrinking of failing vectors"},
             {"name": "E1-leaf", "path": "harness/src/engine/e1.rs, harness/src/engine/hints.rs, harness/src/leaf.rs, harness/src/props/leafdrv.rs",
              "serves_properties": [p for p in ["C01", "C02", "C03", "C04"] if p in CHECKS],
              "kind_free_text": "witness fuzzer: generator loop with replaced hint generators + native gate-constraint evaluation of the real leaf circuit, real prover/verifier as ground truth"},
